@@ -12,7 +12,7 @@ Ltac cfg_sinv HS g extra := sinv_by prj HS g extra.
 Lemma cfg_C1 g n cm ap h i t :
   IA g n cm ap h -> g i = Some t ->
   cc t = 0 -> k_change cm + 1 = i -> k_target cm <> i -> k_index cm = k_target cm ->
-  (forall j p, g j = Some p -> j = k_index cm -> k_target cm = k_index cm -> 2 <= cc p) ->
+  (forall j p, g j = Some p -> j = k_index cm /\ k_target cm = k_index cm -> 2 <= cc p) ->
   IA g n {| k_index := k_index cm; k_ordinal := k_ordinal cm; k_revision := k_revision cm; k_target := i; k_change := k_change cm |} ap
      (h ++ [ev PhChange StCommit i InProgress]).
 Proof.
